@@ -234,6 +234,7 @@ func (r *SimReader) ReadAt(b []byte, off int64) (int, error) {
 
 // FsEvent is one recorded call at the filesystem boundary.
 type FsEvent struct {
+	Tag    int // which client/operation issued the call (interleaved runs)
 	Call   string
 	Path   string // fs-level calls and the path the handle was opened on
 	Handle int    // 0 for fs-level calls
@@ -276,6 +277,10 @@ type SimFs struct {
 	ReadMax  []int // legal short reads: the i-th Read delivers at most ReadMax[i%len] bytes (0 = unlimited)
 	nread    int
 	FakeName string
+	TagFn    func() int // tags recorded events with the issuing client/operation
+	// ShortWriteNext > 0: the next Write accepts only that many bytes and
+	// reports the short count with a nil error (device behaviour, one shot).
+	ShortWriteNext int
 }
 
 func NewSimFs(inner afero.Fs, p *Plane, x *X) *SimFs {
@@ -289,7 +294,32 @@ func errStr(err error) string {
 	return err.Error()
 }
 
+// y is a scheduling point: the operating system may run another caller before
+// the call takes effect.
+func (s *SimFs) y(site string) {
+	if s.p != nil && s.p.yield != nil {
+		s.p.yield(site)
+	}
+}
+
+// Since returns the events recorded from index start on that carry the tag.
+func (s *SimFs) Since(start, tag int) []FsEvent {
+	if s.TagFn == nil {
+		return s.Events[start:]
+	}
+	var out []FsEvent
+	for _, e := range s.Events[start:] {
+		if e.Tag == tag {
+			out = append(out, e)
+		}
+	}
+	return out
+}
+
 func (s *SimFs) rec(e FsEvent) {
+	if s.TagFn != nil {
+		e.Tag = s.TagFn()
+	}
 	s.Events = append(s.Events, e)
 	if s.x != nil {
 		s.x.Logf("fs %s", e.String())
@@ -297,6 +327,7 @@ func (s *SimFs) rec(e FsEvent) {
 }
 
 func (s *SimFs) open(call, name string, flag int, perm os.FileMode, do func() (afero.File, error)) (afero.File, error) {
+	s.y(call)
 	if f := s.p.hit(call); f != nil {
 		s.rec(FsEvent{Call: call, Path: name, Flags: flag, Perm: perm, Err: ErrInjected.Error()})
 		return nil, ErrInjected
@@ -322,6 +353,7 @@ func (s *SimFs) OpenFile(name string, flag int, perm os.FileMode) (afero.File, e
 }
 
 func (s *SimFs) other(call, path, detail string, do func() error) error {
+	s.y(call)
 	s.p.hit(cFsOther)
 	err := do()
 	s.rec(FsEvent{Call: call, Path: path, Detail: detail, Err: errStr(err)})
@@ -353,6 +385,7 @@ func (s *SimFs) Chtimes(name string, a, m time.Time) error {
 	return s.other("fs.Chtimes", name, "", func() error { return s.inner.Chtimes(name, a, m) })
 }
 func (s *SimFs) Stat(name string) (os.FileInfo, error) {
+	s.y(cFsStat)
 	if f := s.p.hit(cFsStat); f != nil {
 		s.rec(FsEvent{Call: cFsStat, Path: name, Err: ErrInjected.Error()})
 		return nil, ErrInjected
@@ -373,6 +406,7 @@ type simFile struct {
 func (f *simFile) ev(call string) FsEvent { return FsEvent{Call: call, Handle: f.h, Path: f.path} }
 
 func (f *simFile) Close() error {
+	f.fs.y(cClose)
 	e := f.ev(cClose)
 	flt := f.fs.p.hit(cClose)
 	err := f.File.Close() // the handle is released either way, as close(2) does
@@ -385,6 +419,7 @@ func (f *simFile) Close() error {
 }
 
 func (f *simFile) Stat() (os.FileInfo, error) {
+	f.fs.y(cStat)
 	e := f.ev(cStat)
 	if flt := f.fs.p.hit(cStat); flt != nil {
 		e.Err = ErrInjected.Error()
@@ -401,6 +436,7 @@ func (f *simFile) Stat() (os.FileInfo, error) {
 }
 
 func (f *simFile) Read(p []byte) (int, error) {
+	f.fs.y(cRead)
 	e := f.ev(cRead)
 	e.Len = len(p)
 	q := p
@@ -460,8 +496,20 @@ func (f *simFile) ReadAt(p []byte, off int64) (int, error) {
 }
 
 func (f *simFile) Write(p []byte) (int, error) {
+	// a write(2) may block before the kernel copies the caller's buffer
+	f.fs.y(cWrite)
 	e := f.ev(cWrite)
 	e.Buf = append([]byte(nil), p...)
+	if k := f.fs.ShortWriteNext; k > 0 && len(p) > 1 {
+		f.fs.ShortWriteNext = 0
+		if k >= len(p) {
+			k = len(p) - 1
+		}
+		n, _ := f.File.Write(p[:k])
+		e.N, e.Detail = n, "device accepted a short count, nil error"
+		f.fs.rec(e)
+		return n, nil
+	}
 	if flt := f.fs.p.hit(cWrite); flt != nil {
 		k := flt.Arg
 		if k >= len(p) {
